@@ -658,6 +658,54 @@ _IO_FRONT_END = ("get_from_", "read_from_", "write_to_", "_parse_and_")
 _IO_FRONT_END_EXACT = {"yield_from_files", "get_reader", "get_writer", "get_tree_yielder", "as_string", "_format_and_write_to_stream", "_write_to"}
 
 
+DOCUMENTED_ORDER_TODAY = {
+    "dendropy.datamodel.treemodel._tree.Tree.filter_leaf_nodes": "documentation lists suppress_unifurcations before update_bipartitions, the signature has them the other way round - today's state, every caller in the library passes them by keyword",
+}
+_DOC_PARAMS_RE = re.compile(r"^\s*Parameters\s*\n\s*-{3,}\s*\n(.*?)(?:\n\s*(?:Returns|Yields|Raises|Notes|Examples?|See Also|Warnings?)\s*\n\s*-{3,}|\Z)", re.S | re.M)
+
+
+def documented_order_rule(index, rep, rid, modules):
+    """positional arguments mean what the documentation says: the parameters a docstring lists in its `Parameters`
+    section appear in the signature in the documented order. Re-ordering the signature alone keeps every keyword call
+    working (and the test suite green) while a caller who passes the options positionally, as documented, gets them
+    swapped - silently so when both are flags or both numbers."""
+    n = 0
+    for m in modules:
+        for f in index.functions_in_module(m):
+            if not isinstance(f.node, ast.FunctionDef):
+                continue
+            doc = ast.get_docstring(f.node)
+            if not doc:
+                continue
+            mm = _DOC_PARAMS_RE.search(doc)
+            if not mm:
+                continue
+            listed = []
+            for line in mm.group(1).split("\n"):
+                lm = re.match(r"^\s{0,12}(\\?\*{0,2}`{0,2}[A-Za-z_][A-Za-z0-9_]*`{0,2})\s*:", line)
+                if lm:
+                    nm = lm.group(1).strip("`*\\")
+                    if nm not in listed:
+                        listed.append(nm)
+            a_ = f.node.args
+            sig = [p_.arg for p_ in a_.posonlyargs + a_.args if p_.arg not in ("self", "cls")]
+            common = [p_ for p_ in listed if p_ in sig]
+            if len(common) < 2:
+                continue
+            n += 1
+            sig_order = [p_ for p_ in sig if p_ in common]
+            if sig_order == common:
+                continue
+            why = DOCUMENTED_ORDER_TODAY.get(f.qualname)
+            if why:
+                rep.ob(rid, fn_where(f), "%s: signature order differs from the documented order - accepted: %s" % (f.name, why), True, nontrivial=False)
+                continue
+            first = next(i for i, (x, y) in enumerate(zip(sig_order, common)) if x != y)
+            rep.check(False, rid, f.qualname, "signature order differs from the documented order", fn_where(f), "",
+                      "%s takes its parameters in the order %s while its documentation lists them as %s: keyword calls are unaffected, but a positional call written from the documentation passes `%s` where `%s` is expected - e.g. mean_pairwise_distance(None, False) asks for edge counts and gets the weighted mean" % (f.qualname, sig_order, common, common[first], sig_order[first]))
+    return n
+
+
 def io_kwargs_rule(index, rep, rid, modules):
     """reader / writer options travel with the call: a function that takes `**kwargs` and calls one of the I/O front
     ends (get_from_* / read_from_* / write_to_* / _parse_and_* / yield_from_files / get_reader / get_writer /
@@ -1640,6 +1688,7 @@ def generic_rules(prop, index, rep):
         nw += parameter_is_read_rule(index, rep, rid, mods)
         nw += orphaned_local_rule(index, rep, rid, mods)
         nw += io_kwargs_rule(index, rep, rid, mods)
+        nw += documented_order_rule(index, rep, rid, mods)
         nw += option_handed_down_rule(index, rep, rid, mods)
         nw += settings_clone_rule(index, rep, rid, mods)
         rep.ob(rid, "src/dendropy", "%d resolved calls in the property's modules examined" % nw, True)
